@@ -44,14 +44,29 @@ def S(lo, hi, flags, pop=2, coord="i32", inject=0, crash=0, cap_s=3000, t=2, ema
     return {"args": a, "label": label or f"seg<{coord}>[{lo},{hi}] pop<={pop}" + (f" inject<={inject}" if inject else "") + (" crash-only" if crash else "")}
 
 
-def F(sys, flags, pay="u16", hint=8, sizes=None, crash=0, label=None):
+def F(sys, flags, pay="u16", hint=8, sizes=None, crash=0, label=None, inject=0):
     """deterministic family of long histories (trees of 9..120 entries, all insertion/deletion order patterns)"""
-    a = ["family", "--sys", sys, "--pay", pay, "--n", "120", "--t", "5", "--hint", str(hint), "--flags", flags]
+    n = 120
+    if sizes:
+        n = max(int(x) for x in sizes.split(",")) + 1
+    a = ["family", "--sys", sys, "--pay", pay, "--n", str(n), "--t", "5", "--hint", str(hint), "--flags", flags]
     if sizes:
         a += ["--sizes", sizes]
     if crash:
         a += ["--crash-only", "1"]
-    return {"args": a, "label": label or f"family {sys}<{pay}> sizes {sizes or '9..120'} hint={hint}" + (" crash-only" if crash else "")}
+    if inject:
+        a += ["--inject", "1"]
+    return {"args": a, "label": label or f"family {sys}<{pay}> sizes {sizes or '9..120'} hint={hint}" + (" crash-only" if crash else "") + (" + a panic at every callback of every step" if inject else "")}
+
+
+def FS(lo, hi, flags, coord="i32", inject=0, crash=0, label=None):
+    """segment tree: family of long histories (up to 12 values per bucket list, stale-clock patterns, overlapping ranges)"""
+    a = ["family", "--sys", "seg", "--coord", coord, "--lo", str(lo), "--hi", str(hi), "--flags", flags]
+    if inject:
+        a += ["--inject", "1"]
+    if crash:
+        a += ["--crash-only", "1"]
+    return {"args": a, "label": label or f"family seg<{coord}>[{lo},{hi}]" + (" crash-only" if crash else "") + (" + a panic at every callback of every step" if inject else "")}
 
 
 def SW(kind, flags="", label=None, as_gb=None, **kw):
@@ -73,25 +88,25 @@ SPECS = {}
 
 # --- expiring-key tree -------------------------------------------------------
 SPECS["C01"] = {
-    "quick": [F("ktree", "fl,fle,fleby,get,o_pred"), K("ktree", 3, 3, KA + ",o_pred", tbase=251), K("ktree", 4, 3, KA + ",o_pred"), K("ktree", 3, 3, KA + ",o_pred"), K("ktree", 3, 2, KA + ",o_pred", mode="full"), K("ktree", 8, 0, "fleby,clear,o_pred", mode="shape", label="ktree N=8 T=0 shape (arena growth)")],
-    "thorough": [F("ktree", "fl,fle,fleby,get,o_pred"), K("ktree", 4, 4, KA + ",o_pred"), K("ktree", 5, 2, KA + ",o_pred", cap_s=900), K("ktree", 3, 3, KA + ",o_pred", mode="full"),
+    "quick": [K("ktree", 3, 3, KA + ",o_pred", tbase=252), K("ktree", 5, 1, "fleby,clear,o_pred"), F("ktree", "fl,fle,fleby,get,o_pred"), K("ktree", 3, 3, KA + ",o_pred", tbase=251), K("ktree", 4, 3, KA + ",o_pred"), K("ktree", 3, 3, KA + ",o_pred"), K("ktree", 3, 2, KA + ",o_pred", mode="full"), K("ktree", 8, 0, "fleby,clear,o_pred", mode="shape", label="ktree N=8 T=0 shape (arena growth)")],
+    "thorough": [K("ktree", 3, 3, KA + ",o_pred", tbase=252), K("ktree", 5, 1, "fleby,clear,o_pred"), F("ktree", "fl,fle,fleby,get,o_pred"), K("ktree", 4, 4, KA + ",o_pred"), K("ktree", 5, 2, KA + ",o_pred", cap_s=900), K("ktree", 3, 3, KA + ",o_pred", mode="full"),
                  K("ktree", 8, 1, "fle,fleby,clear,o_pred", mode="shape", cap_s=900), K("ktree", 4, 3, KA + ",o_pred", hint=9)],
 }
 SPECS["C06"] = {
-    "quick": [F("ktree", "fl,fle,fleby,get,o_get"), K("ktree", 3, 3, KA + ",o_get", tbase=251), K("ktree", 4, 3, KA + ",o_get"), K("ktree", 3, 3, KA + ",o_get"), K("ktree", 3, 2, KA + ",o_get", mode="full"), K("ktree", 8, 0, "get,clear,o_get", mode="shape")],
-    "thorough": [F("ktree", "fl,fle,fleby,get,o_get"), K("ktree", 4, 4, KA + ",o_get"), K("ktree", 5, 2, KA + ",o_get", cap_s=900), K("ktree", 3, 3, KA + ",o_get", mode="full"), K("ktree", 9, 1, "get,clear,o_get", mode="shape", cap_s=900)],
+    "quick": [K("ktree", 3, 3, KA + ",o_get", tbase=252), K("ktree", 5, 1, "get,o_get"), F("ktree", "fl,fle,fleby,get,o_get"), K("ktree", 3, 3, KA + ",o_get", tbase=251), K("ktree", 4, 3, KA + ",o_get"), K("ktree", 3, 3, KA + ",o_get"), K("ktree", 3, 2, KA + ",o_get", mode="full"), K("ktree", 8, 0, "get,clear,o_get", mode="shape")],
+    "thorough": [K("ktree", 3, 3, KA + ",o_get", tbase=252), K("ktree", 5, 1, "get,o_get"), F("ktree", "fl,fle,fleby,get,o_get"), K("ktree", 4, 4, KA + ",o_get"), K("ktree", 5, 2, KA + ",o_get", cap_s=900), K("ktree", 3, 3, KA + ",o_get", mode="full"), K("ktree", 9, 1, "get,clear,o_get", mode="shape", cap_s=900)],
 }
 SPECS["C07"] = {
-    "quick": [F("ktree", "fl,fle,fleby,get,o_export"), F("klist", "fl,fle,fleby,get,o_export"), K("ktree", 3, 3, KA + ",o_export", tbase=251), K("klist", 3, 3, KA + ",o_export", tbase=251), K("ktree", 4, 2, KA + ",o_export"), K("ktree", 3, 3, KA + ",o_export"), K("klist", 3, 3, KA + ",o_export"), K("ktree", 3, 2, KA + ",o_export", mode="full")],
-    "thorough": [F("ktree", "fl,fle,fleby,get,o_export"), F("klist", "fl,fle,fleby,get,o_export"), K("ktree", 4, 4, KA + ",o_export", cap_s=1200), K("klist", 4, 4, KA + ",o_export"), K("ktree", 3, 3, KA + ",o_export", mode="full"), K("ktree", 8, 0, "fleby,clear,o_export", mode="shape")],
+    "quick": [K("ktree", 3, 3, KA + ",o_export", tbase=252), K("klist", 3, 3, KA + ",o_export", tbase=252), F("ktree", "fl,fle,fleby,get,o_export"), F("klist", "fl,fle,fleby,get,o_export"), K("ktree", 3, 3, KA + ",o_export", tbase=251), K("klist", 3, 3, KA + ",o_export", tbase=251), K("ktree", 4, 2, KA + ",o_export"), K("ktree", 3, 3, KA + ",o_export"), K("klist", 3, 3, KA + ",o_export"), K("ktree", 3, 2, KA + ",o_export", mode="full")],
+    "thorough": [K("ktree", 3, 3, KA + ",o_export", tbase=252), K("klist", 3, 3, KA + ",o_export", tbase=252), F("ktree", "fl,fle,fleby,get,o_export"), F("klist", "fl,fle,fleby,get,o_export"), K("ktree", 4, 4, KA + ",o_export", cap_s=1200), K("klist", 4, 4, KA + ",o_export"), K("ktree", 3, 3, KA + ",o_export", mode="full"), K("ktree", 8, 0, "fleby,clear,o_export", mode="shape")],
 }
 SPECS["C19"] = {
     "quick": [F("ktree", "fl,fle,fleby,get,o_cap"), F("klist", "fl,fle,fleby,get,o_cap"), K("ktree", 4, 2, KA + ",o_cap"), K("ktree", 3, 2, KA + ",o_cap"), K("klist", 3, 2, KA + ",o_cap"), K("ktree", 8, 0, "fleby,clear,o_cap", mode="shape"), SW("export-sizes", kmax=14, as_gb=6)],
     "thorough": [F("ktree", "fl,fle,fleby,get,o_cap"), F("klist", "fl,fle,fleby,get,o_cap"), K("ktree", 4, 3, KA + ",o_cap"), K("ktree", 9, 1, "fleby,o_cap", mode="shape", cap_s=900), SW("export-sizes", kmax=21, list_max=8192, as_gb=8)],
 }
 SPECS["C20"] = {
-    "quick": [F("ktree", "fl,fle,fleby,get,o_log"), F("klist", "fl,fle,fleby,get,o_log"), K("ktree", 3, 3, KA + ",o_log", tbase=251), K("klist", 3, 3, KA + ",o_log", tbase=251), K("ktree", 4, 3, KA + ",o_log"), K("ktree", 3, 3, KA + ",o_log"), K("klist", 3, 3, KA + ",o_log"), K("ktree", 3, 2, KA + ",o_log", mode="full")],
-    "thorough": [F("ktree", "fl,fle,fleby,get,o_log"), F("klist", "fl,fle,fleby,get,o_log"), K("ktree", 4, 4, KA + ",o_log"), K("klist", 4, 4, KA + ",o_log"), K("ktree", 5, 2, KA + ",o_log", cap_s=900), K("ktree", 8, 0, "fleby,get,clear,o_log", mode="shape")],
+    "quick": [K("ktree", 3, 3, KA + ",o_log", tbase=252), K("klist", 3, 3, KA + ",o_log", tbase=252), K("ktree", 5, 1, "fleby,get,o_log"), F("ktree", "fl,fle,fleby,get,o_log"), F("klist", "fl,fle,fleby,get,o_log"), K("ktree", 3, 3, KA + ",o_log", tbase=251), K("klist", 3, 3, KA + ",o_log", tbase=251), K("ktree", 4, 3, KA + ",o_log"), K("ktree", 3, 3, KA + ",o_log"), K("klist", 3, 3, KA + ",o_log"), K("ktree", 3, 2, KA + ",o_log", mode="full")],
+    "thorough": [K("ktree", 3, 3, KA + ",o_log", tbase=252), K("klist", 3, 3, KA + ",o_log", tbase=252), K("ktree", 5, 1, "fleby,get,o_log"), F("ktree", "fl,fle,fleby,get,o_log"), F("klist", "fl,fle,fleby,get,o_log"), K("ktree", 4, 4, KA + ",o_log"), K("klist", 4, 4, KA + ",o_log"), K("ktree", 5, 2, KA + ",o_log", cap_s=900), K("ktree", 8, 0, "fleby,get,clear,o_log", mode="shape")],
 }
 
 # --- map / set ---------------------------------------------------------------
@@ -122,39 +137,39 @@ SPECS["C17"] = {
     "thorough": [F("maptree", MA + ",o_hstab"), F("settree", MA + ",o_hstab", hint=9), M("maptree", 7, MA + ",o_hstab"), M("settree", 7, MA + ",o_hstab"), M("maptree", 12, "del,clear,o_hstab", mode="shape"), M("settree", 12, "del,clear,o_hstab", mode="shape", hint=9), M("maptree", 5, MAW + ",o_hstab", pay="heap", hint=1)],
 }
 SPECS["C02"] = {
-    "quick": [F("maptree", MA + ",o_rb"), F("settree", MA + ",o_rb"), F("ktree", "fl,fle,fleby,get,o_rb"), K("ktree", 4, 2, KA + ",o_rb"), M("maptree", 6, MA + ",o_rb,histogram"), M("settree", 6, MA + ",o_rb,histogram"), K("ktree", 3, 3, KA + ",o_rb"), M("maptree", 10, "del,clear,o_rb,histogram", mode="shape"), M("settree", 10, "del,clear,o_rb,histogram", mode="shape"), K("ktree", 8, 0, "fleby,clear,o_rb", mode="shape")],
-    "thorough": [F("maptree", MA + ",o_rb"), F("settree", MA + ",o_rb"), F("ktree", "fl,fle,fleby,get,o_rb"), M("maptree", 7, MA + ",o_rb,histogram"), M("settree", 7, MA + ",o_rb,histogram"), K("ktree", 4, 4, KA + ",o_rb"), K("ktree", 5, 2, KA + ",o_rb", cap_s=900),
+    "quick": [K("ktree", 5, 1, "get,o_rb"), F("maptree", MA + ",o_rb"), F("settree", MA + ",o_rb"), F("ktree", "fl,fle,fleby,get,o_rb"), K("ktree", 4, 2, KA + ",o_rb"), M("maptree", 6, MA + ",o_rb,histogram"), M("settree", 6, MA + ",o_rb,histogram"), K("ktree", 3, 3, KA + ",o_rb"), M("maptree", 10, "del,clear,o_rb,histogram", mode="shape"), M("settree", 10, "del,clear,o_rb,histogram", mode="shape"), K("ktree", 8, 0, "fleby,clear,o_rb", mode="shape")],
+    "thorough": [K("ktree", 5, 1, "get,o_rb"), F("maptree", MA + ",o_rb"), F("settree", MA + ",o_rb"), F("ktree", "fl,fle,fleby,get,o_rb"), M("maptree", 7, MA + ",o_rb,histogram"), M("settree", 7, MA + ",o_rb,histogram"), K("ktree", 4, 4, KA + ",o_rb"), K("ktree", 5, 2, KA + ",o_rb", cap_s=900),
                  M("maptree", 12, "del,clear,o_rb", mode="shape"), M("settree", 12, "del,clear,o_rb", mode="shape", hint=9), K("ktree", 8, 1, "fle,fleby,clear,o_rb", mode="shape", cap_s=900)],
 }
 SPECS["C11"] = {
-    "quick": [F("maptree", MA + ",o_arena"), F("settree", MA + ",o_arena", hint=9), F("ktree", "fl,fle,fleby,get,o_arena"), F("maptree", MA + ",o_arena", hint=64, sizes="48,64,65,100"), K("ktree", 4, 2, KA + ",o_arena"), M("maptree", 6, MA + ",o_arena"), M("settree", 6, MA + ",o_arena"), K("ktree", 3, 3, KA + ",o_arena"),
+    "quick": [K("ktree", 5, 1, "get,o_arena"), F("maptree", MA + ",o_arena"), F("settree", MA + ",o_arena", hint=9), F("ktree", "fl,fle,fleby,get,o_arena"), F("maptree", MA + ",o_arena", hint=64, sizes="48,64,65,100"), K("ktree", 4, 2, KA + ",o_arena"), M("maptree", 6, MA + ",o_arena"), M("settree", 6, MA + ",o_arena"), K("ktree", 3, 3, KA + ",o_arena"),
               M("maptree", 4, MA + ",o_arena", hint=0), M("settree", 4, MA + ",o_arena", hint=1), K("ktree", 3, 2, KA + ",o_arena", hint=0),
               M("maptree", 10, "del,clear,o_arena", mode="shape"), M("settree", 10, "del,clear,o_arena", mode="shape", hint=9), K("ktree", 8, 0, "fleby,clear,o_arena", mode="shape", hint=9),
               M("maptree", 4, MA + ",o_arena", hint=64), K("ktree", 3, 2, KA + ",o_arena", hint=64)],
-    "thorough": [F("maptree", MA + ",o_arena"), F("settree", MA + ",o_arena", hint=9), F("ktree", "fl,fle,fleby,get,o_arena"), F("maptree", MA + ",o_arena", hint=64, sizes="48,64,65,100"), M("maptree", 7, MA + ",o_arena"), M("settree", 7, MA + ",o_arena"), K("ktree", 4, 4, KA + ",o_arena"),
+    "thorough": [K("ktree", 5, 1, "get,o_arena"), F("maptree", MA + ",o_arena"), F("settree", MA + ",o_arena", hint=9), F("ktree", "fl,fle,fleby,get,o_arena"), F("maptree", MA + ",o_arena", hint=64, sizes="48,64,65,100"), M("maptree", 7, MA + ",o_arena"), M("settree", 7, MA + ",o_arena"), K("ktree", 4, 4, KA + ",o_arena"),
                  M("maptree", 6, MA + ",o_arena", hint=0), M("settree", 6, MA + ",o_arena", hint=1), K("ktree", 4, 3, KA + ",o_arena", hint=1),
                  M("maptree", 12, "del,clear,o_arena", mode="shape"), M("maptree", 12, "del,clear,o_arena", mode="shape", hint=9), M("settree", 12, "del,clear,o_arena", mode="shape", hint=9),
                  K("ktree", 9, 1, "fleby,clear,o_arena", mode="shape", hint=9, cap_s=900), M("settree", 6, MA + ",o_arena", hint=64), K("ktree", 4, 3, KA + ",o_arena", hint=64)],
 }
 SPECS["C12"] = {
-    "quick": [K("ktree", 4, 2, KA + ",o_twin,o_pred"), M("maptree", 4, MA + ",o_twin,o_ref,o_handle"), M("settree", 4, MA + ",o_twin,o_ref,o_handle"), M("maplist", 4, MA + ",o_twin,o_ref,o_handle"), M("setlist", 4, MA + ",o_twin,o_ref,o_handle"),
+    "quick": [FS(0, 31, "o_query,o_twin"), FS(-7, 92, "o_query,o_twin"), K("klist", 3, 3, KA + ",o_twin,o_pred", tbase=252), K("ktree", 3, 3, KA + ",o_twin,o_pred", tbase=252), K("ktree", 4, 2, KA + ",o_twin,o_pred"), M("maptree", 4, MA + ",o_twin,o_ref,o_handle"), M("settree", 4, MA + ",o_twin,o_ref,o_handle"), M("maplist", 4, MA + ",o_twin,o_ref,o_handle"), M("setlist", 4, MA + ",o_twin,o_ref,o_handle"),
               K("ktree", 3, 2, KA + ",o_twin,o_pred"), K("klist", 3, 2, KA + ",o_twin,o_pred"), S(0, 31, SA + ",o_twin,o_query"), S(-7, 92, SA + ",o_twin,o_query"),
               M("maptree", 10, "del,clear,o_twin,o_ref", mode="shape"), M("settree", 10, "del,clear,o_twin,o_ref", mode="shape", hint=9), K("ktree", 8, 0, "fleby,clear,o_twin,o_pred", mode="shape")],
-    "thorough": [M("maptree", 6, MA + ",o_twin,o_ref,o_handle"), M("settree", 6, MA + ",o_twin,o_ref,o_handle"), M("maplist", 6, MAW + ",o_twin,o_ref,o_handle"), M("setlist", 6, MAW + ",o_twin,o_ref,o_handle"),
+    "thorough": [FS(0, 31, "o_query,o_twin"), FS(-7, 92, "o_query,o_twin"), K("klist", 3, 3, KA + ",o_twin,o_pred", tbase=252), K("ktree", 3, 3, KA + ",o_twin,o_pred", tbase=252), M("maptree", 6, MA + ",o_twin,o_ref,o_handle"), M("settree", 6, MA + ",o_twin,o_ref,o_handle"), M("maplist", 6, MAW + ",o_twin,o_ref,o_handle"), M("setlist", 6, MAW + ",o_twin,o_ref,o_handle"),
                  K("ktree", 4, 3, KA + ",o_twin,o_pred"), K("klist", 4, 4, KA + ",o_twin,o_pred"), S(0, 31, SA + ",o_twin,o_query", pop=3, cap_s=900), S(-7, 92, SA + ",o_twin,o_query"), S(0, 16, SA + ",o_twin,o_query"),
                  M("maptree", 12, "del,clear,o_twin,o_ref", mode="shape"), M("settree", 12, "del,clear,o_twin,o_ref", mode="shape", hint=9), K("ktree", 9, 1, "fleby,clear,o_twin,o_pred", mode="shape", cap_s=900)],
 }
 LISTS_M = MAW + ",o_ref,o_handle,o_pos,o_rb,o_neigh"
 LISTS_K = KA + ",o_pred,o_get,o_export,o_log,o_rb"
 SPECS["C13"] = {
-    "quick": [F("maplist", LISTS_M, sizes="9,17,33,65"), F("setlist", LISTS_M, sizes="9,17,33,65"), F("klist", "fl,fle,fleby,get,o_pred,o_get,o_export,o_log,o_rb"), K("klist", 4, 3, LISTS_K, tbase=251), M("maplist", 6, LISTS_M), M("setlist", 6, LISTS_M), M("maplist", 5, LISTS_M, pay="heap", hint=0), K("klist", 4, 4, LISTS_K), K("klist", 3, 3, LISTS_K, hint=0)],
-    "thorough": [F("maplist", LISTS_M, sizes="9,17,33,65"), F("setlist", LISTS_M, sizes="9,17,33,65"), F("klist", "fl,fle,fleby,get,o_pred,o_get,o_export,o_log,o_rb"), M("maplist", 8, LISTS_M), M("setlist", 8, LISTS_M), M("setlist", 6, LISTS_M, pay="heap", hint=0), K("klist", 5, 4, LISTS_K, cap_s=900), K("klist", 4, 5, LISTS_K)],
+    "quick": [K("klist", 3, 3, LISTS_K, tbase=252), K("klist", 4, 3, LISTS_K + ",o_twin", tbase=251), F("maplist", LISTS_M, sizes="9,17,33,65"), F("setlist", LISTS_M, sizes="9,17,33,65"), F("klist", "fl,fle,fleby,get,o_pred,o_get,o_export,o_log,o_rb"), K("klist", 4, 3, LISTS_K, tbase=251), M("maplist", 6, LISTS_M), M("setlist", 6, LISTS_M), M("maplist", 5, LISTS_M, pay="heap", hint=0), K("klist", 4, 4, LISTS_K), K("klist", 3, 3, LISTS_K, hint=0)],
+    "thorough": [K("klist", 3, 3, LISTS_K, tbase=252), K("klist", 4, 3, LISTS_K + ",o_twin", tbase=251), F("maplist", LISTS_M, sizes="9,17,33,65"), F("setlist", LISTS_M, sizes="9,17,33,65"), F("klist", "fl,fle,fleby,get,o_pred,o_get,o_export,o_log,o_rb"), M("maplist", 8, LISTS_M), M("setlist", 8, LISTS_M), M("setlist", 6, LISTS_M, pay="heap", hint=0), K("klist", 5, 4, LISTS_K, cap_s=900), K("klist", 4, 5, LISTS_K)],
 }
 
 # --- segment tree --------------------------------------------------------------
 SPECS["C03"] = {
-    "quick": [SW("pairs", "sequential", emax=2, t=2)] + [SW("dpairs", lo=lo, hi=hi) for (lo, hi) in [(0, 16), (5, 37), (0, 63), (-7, 92), (0, 128)]] + [S(lo, hi, SA + ",o_query") for (lo, hi) in DOMAINS_Q],
-    "thorough": [SW("pairs", "sequential", emax=3, t=3)] + [SW("dpairs", lo=lo, hi=hi) for (lo, hi) in [(0, 16), (5, 37), (0, 63), (-7, 92), (0, 128), (-100, 99), (-2147483648, -2147483648 + 150), (2147483647 - 199, 2147483647)]] + [S(lo, hi, SA + ",o_query") for (lo, hi) in DOMAINS_T[:-1]] + [S(-(1 << 31), (1 << 31) - 1, SA + ",o_query", coord="i64"), S(0, (1 << 32) - 1, SA + ",o_query", coord="u32"),
+    "quick": [FS(0, 31, "o_query"), FS(-7, 92, "o_query"), FS(0, 16, "o_query"), SW("pairs", "sequential", emax=2, t=2)] + [SW("dpairs", lo=lo, hi=hi) for (lo, hi) in [(0, 16), (5, 37), (0, 63), (-7, 92), (0, 128)]] + [S(lo, hi, SA + ",o_query") for (lo, hi) in DOMAINS_Q],
+    "thorough": [FS(0, 31, "o_query"), FS(-7, 92, "o_query"), FS(0, 16, "o_query"), SW("pairs", "sequential", emax=3, t=3)] + [SW("dpairs", lo=lo, hi=hi) for (lo, hi) in [(0, 16), (5, 37), (0, 63), (-7, 92), (0, 128), (-100, 99), (-2147483648, -2147483648 + 150), (2147483647 - 199, 2147483647)]] + [S(lo, hi, SA + ",o_query") for (lo, hi) in DOMAINS_T[:-1]] + [S(-(1 << 31), (1 << 31) - 1, SA + ",o_query", coord="i64"), S(0, (1 << 32) - 1, SA + ",o_query", coord="u32"),
                  S(0, 31, SA + ",o_query", pop=3, cap_s=1200), S(-7, 92, SA + ",o_query", pop=3, cap_s=1200)],
 }
 SPECS["C14"] = {
@@ -166,17 +181,17 @@ SPECS["C15"] = {
     "thorough": [SW("pairs", "o_place,sequential", emax=1, t=1)],
 }
 SPECS["C16"] = {
-    "quick": [SW("purge", "subranges"), S(0, 31, "clear,o_purge"), S(-7, 92, "clear,o_purge")],
-    "thorough": [SW("purge", "subranges")] + [S(lo, hi, "clear,restart,o_purge") for (lo, hi) in DOMAINS_T] + [S(0, 31, "clear,o_purge", pop=3, cap_s=1200)],
+    "quick": [FS(0, 31, "o_purge"), FS(-7, 92, "o_purge"), SW("purge", "subranges"), S(0, 31, "clear,o_purge"), S(-7, 92, "clear,o_purge")],
+    "thorough": [FS(0, 31, "o_purge"), FS(-7, 92, "o_purge"), SW("purge", "subranges")] + [S(lo, hi, "clear,restart,o_purge") for (lo, hi) in DOMAINS_T] + [S(0, 31, "clear,o_purge", pop=3, cap_s=1200)],
 }
 
 # --- cross-cutting ---------------------------------------------------------------
 INJ_M = MAW + ",o_ref,o_handle,o_rb,o_arena"
 INJ_K = KA + ",o_pred,o_rb,o_arena"
 SPECS["C18"] = {
-    "quick": [K("ktree", 4, 1, INJ_K, inject=1), M("maptree", 4, INJ_M, inject=1), M("settree", 4, INJ_M, inject=1), M("maplist", 4, INJ_M, inject=1), M("setlist", 4, INJ_M, inject=1),
+    "quick": [K("ktree", 8, 0, "fleby,clear,o_pred,o_rb,o_arena", mode="shape", inject=1), FS(0, 31, "o_query,o_struct", inject=1), FS(-7, 92, "o_query,o_struct", inject=1), F("maptree", INJ_M, sizes="9,16,17", inject=1), F("settree", INJ_M, sizes="9,16,17", inject=1), F("maplist", INJ_M, sizes="9,17", inject=1), F("setlist", INJ_M, sizes="9,17", inject=1), F("ktree", "fl,fle,fleby,get,o_pred,o_rb,o_arena", sizes="9,16,17", inject=1), F("klist", "fl,fle,fleby,get,o_pred,o_rb", sizes="9,17", inject=1), K("ktree", 4, 1, INJ_K, inject=1), M("maptree", 4, INJ_M, inject=1), M("settree", 4, INJ_M, inject=1), M("maplist", 4, INJ_M, inject=1), M("setlist", 4, INJ_M, inject=1),
               K("ktree", 3, 2, INJ_K, inject=1), K("klist", 3, 2, INJ_K, inject=1), S(0, 31, SA + ",o_query,o_struct", inject=1), S(-7, 92, SA + ",o_query,o_struct", inject=1)],
-    "thorough": [M("maptree", 5, INJ_M, inject=1), M("settree", 5, INJ_M, inject=1), M("maptree", 4, MA + ",o_ref,o_handle,o_rb,o_arena", inject=2), M("settree", 4, MA + ",o_ref,o_handle,o_rb,o_arena", inject=2),
+    "thorough": [FS(0, 31, "o_query,o_struct", inject=1), FS(-7, 92, "o_query,o_struct", inject=1), F("maptree", INJ_M, sizes="9,16,17", inject=1), F("settree", INJ_M, sizes="9,16,17", inject=1), F("maplist", INJ_M, sizes="9,17", inject=1), F("setlist", INJ_M, sizes="9,17", inject=1), F("ktree", "fl,fle,fleby,get,o_pred,o_rb,o_arena", sizes="9,16,17", inject=1), F("klist", "fl,fle,fleby,get,o_pred,o_rb", sizes="9,17", inject=1), M("maptree", 5, INJ_M, inject=1), M("settree", 5, INJ_M, inject=1), M("maptree", 4, MA + ",o_ref,o_handle,o_rb,o_arena", inject=2), M("settree", 4, MA + ",o_ref,o_handle,o_rb,o_arena", inject=2),
                  M("maplist", 5, INJ_M, inject=2), M("setlist", 5, INJ_M, inject=2), M("maptree", 4, INJ_M, pay="heap", inject=1),
                  K("ktree", 3, 3, INJ_K, inject=1), K("ktree", 3, 2, INJ_K, inject=2, cap_s=1200), K("klist", 3, 3, INJ_K, inject=2), K("ktree", 8, 0, "fleby,clear,o_pred,o_rb,o_arena", mode="shape", inject=1, cap_s=900),
                  S(0, 31, SA + ",o_query,o_struct", inject=2, cap_s=1200), S(-7, 92, SA + ",o_query,o_struct", inject=1), S(0, 16, SA + ",o_query,o_struct", inject=1)],
@@ -184,13 +199,13 @@ SPECS["C18"] = {
 ALL_M = MAW + ",o_ref,o_handle,o_neigh,o_hstab"
 ALL_K = KA + ",o_pred,o_get,o_export"
 SPECS["C10"] = {
-    "quick": [F("maptree", ALL_M, crash=1), F("settree", ALL_M, crash=1), F("ktree", "fl,fle,fleby,get,o_pred,o_get,o_export", crash=1), K("ktree", 3, 3, ALL_K, crash=1, tbase=251), K("klist", 3, 3, ALL_K, crash=1, tbase=251), K("ktree", 4, 2, ALL_K, crash=1), M("maptree", 5, ALL_M, crash=1), M("settree", 5, ALL_M, crash=1), M("maplist", 5, ALL_M, crash=1), M("setlist", 5, ALL_M, crash=1),
+    "quick": [FS(0, 31, "o_query", crash=1), FS(-1000, 3095, "o_query", crash=1), K("ktree", 3, 3, ALL_K, crash=1, tbase=252), K("klist", 3, 3, ALL_K, crash=1, tbase=252), F("maptree", ALL_M, crash=1), F("settree", ALL_M, crash=1), F("ktree", "fl,fle,fleby,get,o_pred,o_get,o_export", crash=1), K("ktree", 3, 3, ALL_K, crash=1, tbase=251), K("klist", 3, 3, ALL_K, crash=1, tbase=251), K("ktree", 4, 2, ALL_K, crash=1), M("maptree", 5, ALL_M, crash=1), M("settree", 5, ALL_M, crash=1), M("maplist", 5, ALL_M, crash=1), M("setlist", 5, ALL_M, crash=1),
               M("maptree", 4, ALL_M, crash=1, hint=0, pay="heap"), M("settree", 4, ALL_M, crash=1, hint=1, pay="bare"), M("maptree", 10, "del,delh,clear,o_handle", mode="shape", crash=1, hint=9), M("settree", 10, "del,delh,clear,o_neigh", mode="shape", crash=1, hint=9), M("settree", 3, ALL_M, crash=1, hint=64),
               K("ktree", 3, 3, ALL_K, crash=1), K("klist", 3, 3, ALL_K, crash=1), K("ktree", 3, 2, ALL_K, crash=1, hint=0), K("ktree", 3, 2, ALL_K, crash=1, hint=64), K("ktree", 8, 0, "fleby,get,clear,o_export", mode="shape", crash=1, hint=9),
               S(0, 16, SA + ",o_query", crash=1), S(0, 31, SA + ",o_query", crash=1), S(-7, 92, SA + ",o_query", crash=1), S(-(1 << 31), (1 << 31) - 1, SA + ",o_query", crash=1),
               SW("layout", lmax=600, all_coords=600, label="layout sweep (constructor and edge coordinates, process outcome only)"), SW("dpairs", lo=0, hi=128, label="all insert x query range pairs on [0,128] (process outcome)"),
               SW("niche", type="key", label="KeyExpTree::new with a key type that has no all-zero value"), SW("niche", type="val", label="KeyExpTree::new with a value type that has no all-zero value"), SW("niche", type="list", label="KeyExpList with the same key type")],
-    "thorough": [F("maptree", ALL_M, crash=1), F("settree", ALL_M, crash=1), F("ktree", "fl,fle,fleby,get,o_pred,o_get,o_export", crash=1), M("maptree", 7, MA + ",o_ref,o_handle,o_hstab", crash=1), M("settree", 7, MA + ",o_ref,o_handle,o_neigh,o_hstab", crash=1), M("maplist", 7, ALL_M, crash=1), M("setlist", 7, ALL_M, crash=1),
+    "thorough": [FS(0, 31, "o_query", crash=1), FS(-1000, 3095, "o_query", crash=1), K("ktree", 3, 3, ALL_K, crash=1, tbase=252), K("klist", 3, 3, ALL_K, crash=1, tbase=252), F("maptree", ALL_M, crash=1), F("settree", ALL_M, crash=1), F("ktree", "fl,fle,fleby,get,o_pred,o_get,o_export", crash=1), M("maptree", 7, MA + ",o_ref,o_handle,o_hstab", crash=1), M("settree", 7, MA + ",o_ref,o_handle,o_neigh,o_hstab", crash=1), M("maplist", 7, ALL_M, crash=1), M("setlist", 7, ALL_M, crash=1),
                  M("maptree", 5, ALL_M, crash=1, hint=0, pay="heap"), M("settree", 6, ALL_M, crash=1, hint=1, pay="bare"), M("maptree", 12, "del,delh,clear,o_handle", mode="shape", crash=1, hint=9), M("settree", 12, "del,delh,clear,o_neigh", mode="shape", crash=1, hint=9), M("settree", 5, ALL_M, crash=1, hint=64),
                  K("ktree", 4, 4, ALL_K, crash=1, cap_s=1200), K("klist", 4, 4, ALL_K, crash=1), K("ktree", 4, 3, ALL_K, crash=1, hint=0), K("ktree", 3, 3, ALL_K, crash=1, mode="full"), K("ktree", 9, 1, "fleby,get,clear,o_export", mode="shape", crash=1, hint=9, cap_s=900),
                  ] + [S(lo, hi, SA + ",o_query", crash=1) for (lo, hi) in DOMAINS_T] + [S(0, (1 << 32) - 1, SA + ",o_query", crash=1, coord="u32"), S(-(1 << 40), (1 << 40) + 5, SA + ",o_query", crash=1, coord="i64"),
